@@ -182,7 +182,7 @@ func registerLCMocks() []*lcMock {
 type scopeFacts struct {
 	ekus     []string // "serverAuth", "clientAuth", "emailProtection", "codeSigning", "any", "ocsp", "timeStamping", "unknown"
 	policies []string // dotted
-	emailSAN string   // "none" | "empty" | "a@b"
+	emailSAN string   // "none" | "empty" | "a@b" | otherName forms: "smtputf8" (a mailbox) | "smtputf8-empty" | "upn" | "othername-empty"
 }
 
 var smimePolicies = func() map[string]bool {
@@ -216,7 +216,7 @@ func refScope(src lint.LintSource, f scopeFacts) bool {
 		}
 		return false
 	case lint.CABFSMIMEBaselineRequirements:
-		if f.emailSAN == "a@b" && (len(f.ekus) == 0 || has("any") || has("emailProtection")) {
+		if (f.emailSAN == "a@b" || f.emailSAN == "smtputf8") && (len(f.ekus) == 0 || has("any") || has("emailProtection")) {
 			return true
 		}
 		for _, p := range f.policies {
@@ -278,6 +278,14 @@ func scopeCert(f scopeFacts, nb time.Time) []byte {
 		gns = append(gns, certgen.GNEmail(""))
 	case "a@b":
 		gns = append(gns, certgen.GNEmail("a@example.com"))
+	case "smtputf8": // id-on-SmtpUTF8Mailbox, a mailbox: an e-mail indication
+		gns = append(gns, certgen.GNOther([]int{1, 3, 6, 1, 5, 5, 7, 8, 9}, der.Str(12, "a@example.com")))
+	case "smtputf8-empty": // the same type without a value: none
+		gns = append(gns, certgen.GNOther([]int{1, 3, 6, 1, 5, 5, 7, 8, 9}, nil))
+	case "upn": // another otherName type (Microsoft UPN) with a value: not an e-mail indication
+		gns = append(gns, certgen.GNOther([]int{1, 3, 6, 1, 4, 1, 311, 20, 2, 3}, der.Str(12, "a@example.com")))
+	case "othername-empty":
+		gns = append(gns, certgen.GNOther([]int{1, 3, 6, 1, 4, 1, 311, 20, 2, 3}, nil))
 	}
 	s.Exts = append(s.Exts, certgen.SAN(false, gns...))
 	return s.Build()
@@ -543,7 +551,7 @@ func c04E2(ctx *core.Ctx, rep *core.Report, mocks []*lcMock) {
 	lcControl = lcCtl{applies: true, outcome: int(lint.Error)}
 	for _, es := range ekuSets {
 		for _, ps := range polSets {
-			for _, em := range []string{"none", "empty", "a@b"} {
+			for _, em := range []string{"none", "empty", "a@b", "smtputf8", "smtputf8-empty", "upn", "othername-empty"} {
 				f := scopeFacts{ekus: es, policies: ps, emailSAN: em}
 				b := scopeCert(f, date(2024, 1, 1))
 				o, err := zl.Parse(seeds.Cert, b)
